@@ -15,6 +15,9 @@ Observation point: `ModeWrapper(<stack with seeded sample wrappers>, mode)[i]`  
                 stream probes (identical underlying samples, seeded layer adds element-wise continuous noise on every
                 call): outputs of indices that reach the seeded layer with different indices are pairwise different;
                 seeded mixup with p=1: no three indices share the mixing weight decoded from the label   -> same-stream:<wrapper>
+                draw probes (the seeded layer wraps a transform that returns its raw draws: 6 rng.random() + 3 64-bit integers):
+                the raw 64-bit draws of indices reaching the seeded layer with different indices share < 2 values
+                (a stream that is a shifted copy of a neighbour's shares most)                          -> streams-overlap:<wrapper>
                 wrappers serving two items from one draw (x + semseg, x + class): item k of index i requested through the modes
                 "<a>", "<b>", "<b> <a>", with index is bit-identical to the item in the fused mode "<a> <b>"   -> form-dependent:<wrapper>
                 once per run / shard: the reference tables of one stack per wrapper family recomputed in two other
@@ -73,6 +76,8 @@ ASSUMPTIONS = [
     "false-alarm bound per pair < 1e-100) and for the mixup weight (Beta(a, a), a >= 1: density <= 1.5, float32 label; three "
     "indices sharing one weight: < C(10,3) * (1.5 * 2^-23)^2 < 4e-12 per case); for crop / flip / colour pipelines (BYOL, Minaug, MUGS) "
     "whose observable outputs are discrete after rounding it is recorded as evidence (index-sensitive tables), never judged",
+    "draw probes: two independent streams share one 53-bit draw prefix with probability < (10*18)^2 * 2^-53 < 4e-12 per case; a verdict needs "
+    "two shared values (< 1e-22)",
     "seed sensitivity (another seed gives another table) is evidence, never a verdict",
     "which ModeWrapper mode an item is requested through is not part of (data, config, seed, i): the same item of the same index must "
     "agree across modes (ctx is not requested in this comparison)",
@@ -81,7 +86,7 @@ ASSUMPTIONS = [
 ]
 MONITORS = ["reference_tables", "history_observations_compared", "second_instance_observations_compared", "request_form_observations_compared",
             "global_rng_perturbations", "loader_runs", "loader_runs_in_worker_processes", "loader_samples_compared",
-            "stream_pairs_compared", "mix_weights_decoded", "index_sensitive_tables", "request_mode_items_compared", "interpreter_tables_compared"]
+            "stream_pairs_compared", "draw_windows_compared", "mix_weights_decoded", "index_sensitive_tables", "request_mode_items_compared", "interpreter_tables_compared"]
 
 STEP_LIMIT = 3_000_000
 WITNESSES_PER_KEY = 4
@@ -157,10 +162,11 @@ def gen_cases(run):
     flags = _flags(run)
     yield _gen_xproc(run, rng, flags)
     n_probe = run.n(50, 16 * 300)
-    n_stack = run.n(118, 16 * 1000)
+    n_stack = run.n(108, 16 * 1000)
     n_common = run.n(8, 16 * 30)
     n_fused = run.n(10, 16 * 60)
-    plan = ["probe"] * n_probe + ["stack"] * n_stack + ["common"] * n_common + ["fused"] * n_fused
+    n_draws = run.n(16, 16 * 100)
+    plan = ["probe"] * n_probe + ["stack"] * n_stack + ["common"] * n_common + ["fused"] * n_fused + ["draws"] * n_draws
     rng.shuffle(plan)
     loader_share = 0.3
     zero = {}
@@ -183,6 +189,8 @@ def gen_cases(run):
             st = S.gen_stack(rng, flags, family="common")
         elif kind == "fused":
             st = S.gen_fused(rng, flags)
+        elif kind == "draws":
+            st = S.gen_draw_probe(rng)
         else:
             st = S.gen_stack(rng, flags, family=rng.choice(["xtw", "xtw", "xtw", "xtw2", "mv", "mv", "mix", "semseg", "semseg"]))
         zero_quota(st)
@@ -464,6 +472,22 @@ def _judge_streams(spec, probe, m, raw, R, bump):
     pos = probe["layer"]
     seen = [S.seen_index(spec["n"], layers, pos, j) for j in range(m)]
     wname = S.wrapper_class_name(layers[pos])
+    if probe["rule"] == "draws":
+        keys = [S.draw_keys(raw[j]) for j in range(m)]
+        for j in range(m):
+            if len(keys[j]) < S.REC_FLOATS + S.REC_INTS:
+                return {"kind": "draws-shape", "what": f"index {j}: the recording transform's output {str(raw[j])[:200]} holds {len(keys[j])} draws"}
+            for k in range(j):
+                if seen[j] == seen[k]:
+                    continue
+                bump("draw_windows_compared")
+                shared = set(keys[j]) & set(keys[k])
+                if len(shared) >= 2:
+                    return {"kind": "streams-overlap", "layer": pos,
+                            "what": f"{wname}(seed={layers[pos]['seed']}) over a transform that returns its raw draws: indices {k} and {j} (the seeded layer is asked "
+                                    f"for {seen[k]} and {seen[j]}) share {len(shared)} of their {len(keys[j])} raw 64-bit draws - the stream of one index is "
+                                    f"a shifted copy of the other's, not a different stream"}
+        return None
     if probe["rule"] == "pairwise":
         for j in range(m):
             for k in range(j):
@@ -579,6 +603,8 @@ def _reduce(spec, finding):
     loader_only = finding.get("obs") == "loader"
     if finding["kind"] == "form-dependent":
         return [(spec, finding, S.wrapper_family(layers[finding["layer"]]))]
+    if finding["kind"] == "streams-overlap":
+        return [(spec, finding, S.wrapper_family(layers[finding["layer"]]))]
     if finding["kind"] == "same-stream":
         l = layers[finding["layer"]]
         return [(spec, finding, S.wrapper_family(l))]
@@ -604,7 +630,7 @@ def _reduce(spec, finding):
         for ch, sub, g in hits:
             descend(layer, ch, mk, sub, g)
         if not hits:
-            out.append((cur_spec, cur_finding, f"{S.wrapper_family(layer)}:{H.node_label(tree)}"))
+            out.append((cur_spec, cur_finding, f"{S.wrapper_family(layer)}:{S.node_label(tree)}"))
 
     T0 = H.t_img("tensor", 3, 8, 8)
 
@@ -668,7 +694,7 @@ def _reduce(spec, finding):
                     if not _same_kind(finding, judge(_solo(spec, dict(layer, configs=others)))):
                         needed.append(c)
                 if len(needed) == 1:
-                    out.append((solo, g, f"{S.wrapper_family(layer)}:{H.node_label(needed[0]['tree'])}"))
+                    out.append((solo, g, f"{S.wrapper_family(layer)}:{S.node_label(needed[0]['tree'])}"))
                 else:
                     out.append((solo, g, S.wrapper_family(layer)))
         elif w == "semseg":
@@ -678,7 +704,7 @@ def _reduce(spec, finding):
                 g1 = judge(one)
                 if _same_kind(finding, g1):
                     hit_m = True
-                    out.append((one, g1, f"{S.wrapper_family(layer)}:{H.node_label(mnode)}"))
+                    out.append((one, g1, f"{S.wrapper_family(layer)}:{S.node_label(mnode)}"))
             if not hit_m:
                 out.append((solo, g, S.wrapper_family(layer)))
         else:
@@ -824,13 +850,13 @@ def _cover(run, spec):
             if l["seed"] == 0 and l["w"] in S.SEEDED and S.stochastic_layer(l):
                 run.count(f"zero_seed_layers[{S.wrapper_family(l)}]")
         if l["w"] == "xtw":
-            run.cover("xtw", l["item"], l["tree"]["t"], H.node_depth(l["tree"]), bool(l["tree"].get("implicit")), l["tree"].get("via", "obj"))
+            run.cover("xtw", l["item"], l["tree"]["t"], S.node_depth(l["tree"]), bool(l["tree"].get("implicit")), l["tree"].get("via", "obj"))
         elif l["w"] == "mv":
             for c in l["configs"]:
                 run.cover("mv-config", c["form"], S.mv_views(c), c["tree"]["t"] if c.get("tree") else "identity")
         elif l["w"] == "semseg":
             for mnode in l["members"]:
-                run.cover("semseg-member", H.node_label(mnode))
+                run.cover("semseg-member", S.node_label(mnode))
         elif l["w"] == "mix":
             run.cover("mix", l["mixup_p"], l["mixup_alpha"], spec["mode"])
         for t in S.layer_trees(l):
